@@ -83,7 +83,8 @@ VisArr == Visible \cap ArrNames
 \* a call from inside a function passes `k minus 1`; with the guard that opens every one-parameter
 \* number function (`if to say (k small pass 1) start return .. end`) recursion is bounded by construction.
 \* In the `str` profile a one-parameter function takes a string `s`.
-Atom(c) == IF P.ty = "num" THEN Num(c) ELSE StrC(c)
+\* with "freshatoms" a string atom is a concatenation computed at run time (pooled storage), not a literal
+Atom(c) == IF P.ty = "num" THEN Num(c) ELSE IF "freshatoms" \in P.kinds THEN Bin("add", StrC(c), StrC(0)) ELSE StrC(c)
 ScalarVars == Visible \ ((IF P.ty = "str" THEN NumOnly ELSE {}) \cup ArrNames)
 CallArgSets(f, c) == IF P.arity[f] = 0 THEN {<<>>}
                      ELSE IF P.ty = "str" THEN {<<Atom(c)>>} \cup {<<Var(x)>> : x \in ScalarVars} \cup {<<Bin("add", Var(x), Atom(c))>> : x \in ScalarVars \cap (IF "argcat" \in P.kinds THEN ScalarVars ELSE {})}
@@ -134,11 +135,12 @@ GenSimple ==
      \* type juggling: a variable declared at one type is re-assigned at another (accepted by the checker)
      \/ /\ Has("juggle") /\ \E x \in Assignable : AddStmt(Set(id, x, IF P.ty = "num" THEN StrC(id) ELSE Num(id)))
      \/ /\ Has("ret") /\ InFun /\ \E e \in Exprs(id) : AddStmt(Ret(id, e))
-     \/ /\ Has("arr") /\ \E a \in ArrNames \cap P.names, e \in Exprs(id) : AddDecl(Make(id, a, ArrE(<<e>>)), a)
-     \/ /\ Has("arr") /\ \E a \in ArrNames \cap P.names, b \in VisArr : AddDecl(Make(id, a, Var(b)), a)
-     \/ /\ Has("arr") /\ \E a \in VisArr, e \in Exprs(id) : AddStmt(ExprS(id, MCall(Var(a), "push", <<e>>)))
-     \/ /\ Has("arr") /\ \E a \in VisArr, e \in Exprs(id) : AddStmt(SetI(id, a, <<Num(0)>>, e))
-     \/ /\ Has("arr") /\ \E a \in VisArr : AddStmt(Shout(id, Var(a)))
+     \* arrays ("arr" = all of these, or the single productions "arr.make" "arr.copy" "arr.push" "arr.seti" "arr.shout")
+     \/ /\ (Has("arr") \/ Has("arr.make")) /\ \E a \in ArrNames \cap P.names, e \in Exprs(id) : AddDecl(Make(id, a, ArrE(<<e>>)), a)
+     \/ /\ (Has("arr") \/ Has("arr.copy")) /\ \E a \in ArrNames \cap P.names, b \in VisArr : AddDecl(Make(id, a, Var(b)), a)
+     \/ /\ (Has("arr") \/ Has("arr.push")) /\ \E a \in VisArr, e \in Exprs(id) : AddStmt(ExprS(id, MCall(Var(a), "push", <<e>>)))
+     \/ /\ (Has("arr") \/ Has("arr.seti")) /\ \E a \in VisArr, e \in Exprs(id) : AddStmt(SetI(id, a, <<Num(0)>>, e))
+     \/ /\ (Has("arr") \/ Has("arr.shout")) /\ \E a \in VisArr : AddStmt(Shout(id, Var(a)))
      \* nested arrays: literals of depth 2, an array stored in / pushed onto another, writes and mutation at depth 2
      \/ /\ Has("arr2") /\ \E a \in ArrNames \cap P.names : AddDecl(Make(id, a, ArrE(<<ArrE(<<Atom(id)>>), Atom(id + 100)>>)), a)
      \/ /\ Has("arr2") /\ \E a \in VisArr, b \in VisArr : AddStmt(ExprS(id, MCall(Var(a), "push", <<Var(b)>>)))
